@@ -44,7 +44,7 @@ fn incr_p(w: &World, hid: Hid) -> Option<Incr<Pair>> {
 }
 /// height budget: refuse to build what could exceed the configured limit (C04 well-formedness)
 fn fits(w: &World, hb: i32) -> bool {
-    hb <= w.max_height
+    hb <= w.max_height.get()
 }
 
 pub fn exec_action(w: &Rc<World>, a: &Action) {
@@ -374,8 +374,12 @@ pub fn exec_action(w: &Rc<World>, a: &Action) {
         }
         Action::SetMaxHeight { n } => {
             let Some(st) = w.state() else { return skipped(w, "no state") };
-            st.set_max_height_allowed(*n);
-            act(w, Act::SetMaxHeight { n: *n });
+            if in_cb { return skipped(w, "inside a callback") }
+            // always legal: at least the greatest height bound of anything ever built, plus slack
+            let limit = (w.max_hb_ever.get().max(1) as usize) + (*n % 48);
+            st.set_max_height_allowed(limit);
+            w.max_height.set(limit as i32);
+            act(w, Act::SetMaxHeight { n: limit });
         }
         Action::X(_) => {}
         Action::Teardown { .. } | Action::DropState => {
